@@ -101,15 +101,38 @@ def gen(tier, rng):
         req = "run %s %s %s %s" % (m, src, hx(data), " ".join(script.split()))
         out.append(req)
         ORACLE[req] = (content, ops, target)
+    # input that ENDS INSIDE the declared content of the value: whatever the closure does with what is there
+    # (reads some of it, all of it, nothing, or tries to read on), the enclosing read must fail
+    for _ in range(3000 if tier == "quick" else 30000):
+        n = rng.choice([1, 2, 3, 5, 8, 13])
+        k = rng.randrange(0, n)
+        content = bytes(rng.randrange(256) for _ in range(n))
+        ops = scripts.rand_prim_ops(rng, k) if rng.random() < 0.7 else " ".join(["tu8"] * rng.randrange(0, k + 1))
+        m = rng.choice(modes)
+        target = Tree(rng.choice([0, 2]), rng.choice([4, 12, 31]), content=content)
+        enc = target.encode()
+        data = enc[:len(enc) - (n - k)]
+        ctx = rng.choice(["top", "def"]) if m != "cer" else "top"
+        script = "tp [ %s ]" % ops
+        if ctx == "def":
+            data, script = b"\x30" + length(len(enc)) + data, "tc { %s }" % script
+        req = "run %s %s %s %s" % (m, rng.choice(srcs), hx(data), " ".join(script.split()))
+        out.append(req)
+        TRUNC[req] = True
     return out
 
 ORACLE = {}
+TRUNC = {}
 
 def relational(reqs, answers):
     """window oracle: the observation log inside `tp [ … ]` must be what a cursor over the content alone gives,
        and the enclosing read must fail iff the script errs or leaves content unread"""
     fails = []
     for r, a in zip(reqs, answers):
+        if r in TRUNC:
+            if not a.startswith("err content"):
+                fails.append({"request": r, "impl": a, "spec": "err content (the input ends inside the value's declared content)"})
+            continue
         if r not in ORACLE:
             continue
         content, ops, target = ORACLE[r]
